@@ -225,3 +225,39 @@ func VerifC20_Twin() {
 	zzverif.Assert(!ok, "twin-must-fail")
 	zzverif.Reach("twin")
 }
+
+// Two goroutines use one cache: every explored schedule keeps the accesses
+// ordered (race monitor), no operation blocks for ever, and the final state is
+// one a sequential order of the operations could have produced.
+func VerifC20_Concurrent() {
+	c := NewLRUCache(WithCapacity(2), WithDefaultTTL(0)) // no expiry: the clock is free to jump
+	done := make(chan struct{}, 2)
+	var got1, got2 interface{}
+	var ok1, ok2 bool
+	go func() {
+		zzverif.Perturb()
+		c.Set("a", "1", 0)
+		got1, ok1 = c.Get("b")
+		done <- struct{}{}
+	}()
+	go func() {
+		zzverif.Perturb()
+		c.Set("b", "2", 0)
+		c.Set("c", "3", 0)
+		got2, ok2 = c.Get("a")
+		done <- struct{}{}
+	}()
+	<-done
+	<-done
+	if ok1 {
+		zzverif.Assert(got1 == interface{}("2"), "concurrent: Get returned a value never stored under that key")
+	}
+	if ok2 {
+		zzverif.Assert(got2 == interface{}("1"), "concurrent: Get returned a value never stored under that key")
+	}
+	st := c.Stats()
+	zzverif.Assert(st.EntryCount <= 2, "concurrent: capacity exceeded")
+	_, hasC := c.Get("c")
+	zzverif.Assert(hasC, "concurrent: the most recently stored key was evicted")
+	zzverif.Reach("concurrent")
+}
